@@ -238,7 +238,8 @@ fn shrink(sv: &mut Servers, wi: usize, f: &Failure) -> Option<String> {
     let mode = sv.workers[wi].0.clone();
     let mut best = f.case.clone();
     let mut improved = true;
-    let mut budget = 200;
+    // every candidate that still hangs costs a full watchdog period: a hang is shrunk with a small budget
+    let mut budget = if f.signature.ends_with(":hang") { 24 } else { 200 };
     while improved && budget > 0 {
         improved = false;
         let toks: Vec<String> = best.split(' ').map(|s| s.to_string()).collect();
@@ -288,7 +289,7 @@ fn search_witness(sv: &mut Servers, wi: usize, f: &Failure, rng: &mut Rng) -> Op
     let mode = sv.workers[wi].0.clone();
     let base = f.shrunk.clone().unwrap_or_else(|| f.case.clone());
     let mut pool = vec![base.clone()];
-    pool.extend(neighbours(&base, rng, 300));
+    pool.extend(neighbours(&base, rng, if f.signature.ends_with(":hang") { 24 } else { 300 }));
     for cand in pool {
         let l = mode_line(&cand, &mode);
         let r = sv.ask_worker(wi, &l);
